@@ -175,6 +175,27 @@ class C05(Prop):
             meta = {"path": nested_path} if both else {"missing": True}
             out.append({"stream": "ops", "tag": "literal-path-key:" + ("both" if both else "only"),
                         "input": {"tree": t, "mode": rng.choice(["wrap", "json"]), "ops": [op], "metas": [meta]}})
+        # input in which one container object is referenced from two places (a template record used twice, a tuple of
+        # defaults): after n0dict.convert_recursively the two places are two nodes - a delete / pop through one of them
+        # leaves the other alone.  "alias": [src, dst] = before building, the node at dst is made the very object at src
+        for _ in range(60 if tier == "quick" else 1500):
+            t = X.gen_tree(rng, rng.choice([2, 3]), root="dict")
+            conts = [(p, v) for p, v in X.node_paths(t) if isinstance(v, (dict, list)) and v and isinstance(p[-1], str)]
+            if not conts:
+                continue
+            src, v = rng.choice(conts)
+            t["twin"] = copy.deepcopy(v)
+            dst = ["twin"]
+            side = rng.choice([src, dst])
+            below = [p for p, _v in X.node_paths(t) if len(p) > len(side) and list(p[:len(side)]) == list(side)]
+            if not below:
+                continue
+            p = rng.choice(below)
+            rc = rng.random() < 0.4
+            kind = rng.choice(["del", "pop"])
+            op = [kind, X.render(t, p, rng), rc] + (["D"] if kind == "pop" else [])
+            out.append({"stream": "ops", "tag": "shared-input", "input": {"tree": t, "mode": "convert", "ops": [op],
+                                                                         "metas": [{"path": list(p)}], "alias": [list(src), dst]}})
         self._exh = None
         if tier == "thorough":
             n_trees = n_cases = 0
@@ -199,7 +220,13 @@ class C05(Prop):
 
     def run_impl(self, case):
         i = case["input"]
-        obj = X.build(i["tree"], i["mode"])
+        if i.get("alias"):
+            t0 = copy.deepcopy(i["tree"])
+            src, dst = i["alias"]
+            X.plain_get(t0, dst[:-1])[dst[-1]] = X.plain_get(t0, src)       # one object, two places
+            obj = X.build(t0, i["mode"])
+        else:
+            obj = X.build(i["tree"], i["mode"])
         ref = copy.deepcopy(i["tree"])
         fail = None
         for op, m in zip(i["ops"], i["metas"]):
